@@ -10,6 +10,8 @@
 
 #define MAXL 8
 static const char *NAMES[4] = {"a", "A", "b", "zz"};       /* zz is never stored */
+/* "pair" mode: two names with the same 32-bit MurmurHash3 value, one a proper prefix of the other, and a third with that prefix (lookups compare the hash first, the name second) */
+static const char *PAIRNAMES[4] = {"session6aa6b62c", "session", "sessio", "zz"};
 typedef struct { unsigned char b[12]; size_t n; int kind; } val_t;   /* 0 putstr, 1 putint, 2 put(bytes) */
 static const val_t VAL[4] = {{"x", 2, 0}, {"p q", 4, 0}, {"42", 3, 1}, {{1, 0, 2}, 3, 2}};
 static int OPT, L, NV, UNIQ, CASEI, TOP, FWD, LIBOPT;
@@ -337,10 +339,12 @@ static int worker(int argc, char **argv) {
             a[na] = 0; int two = strcmp(h2, "-") != 0; if (two) nb = vc_unhex(h2, b); b[nb] = 0;
             value_case((char *)a, two ? (char *)b : NULL); return 0;
         }
+        if (!strncmp(vc_replay_key, "listtblpair:", 12)) { for (int i = 0; i < 4; i++) NAMES[i] = PAIRNAMES[i]; sscanf(vc_replay_key, "listtblpair:%d:%n", &OPT, &off); L = 3; NV = 2; setup(); vc_case("replay", vc_replay_key); return sm_replay(&SP, vc_replay_key + off); }
         if (sscanf(vc_replay_key, "listtbl:%d:%d:%d:%n", &OPT, &L, &NV, &off) < 3) return 1;
         setup(); vc_case("replay", vc_replay_key); return sm_replay(&SP, vc_replay_key + off);
     }
     if (argc < 3) return 1;
+    if (!strcmp(argv[1], "pair")) { for (int i = 0; i < 4; i++) NAMES[i] = PAIRNAMES[i]; OPT = atoi(argv[2]); L = 3; NV = 2; setup(); snprintf(SP.prefix, sizeof SP.prefix, "listtblpair:%d:", OPT); sm_search(&SP, 0); return 0; }
     if (!strcmp(argv[1], "values")) { OPT = atoi(argv[2]); L = 3; NV = 2; setup(); run_values(); return 0; }
     if (!strcmp(argv[1], "multi")) { OPT = atoi(argv[2]); L = 3; NV = 2; setup(); run_multi(); return 0; }
     OPT = atoi(argv[1]); L = atoi(argv[2]); NV = atoi(argv[3]);
